@@ -32,7 +32,7 @@ ONEHOT = {0, 1, 2}
 SHIFTS = [-5.0, 3.3]
 BOUNDS = {'quick': dict(T=4, Tshift=3, bag_depth=3), 'thorough': dict(T=5, Tshift=4, bag_depth=4)}
 BOUNDS['replay'] = BOUNDS['quick']
-BASE_T = [0.0, 1e-6, 0.1, 1 / 3, 0.5, 0.9, 0.99, 1.0, 2.0, float('inf')]
+BASE_T = [float('-inf'), -1.0, -1e-9, 0.0, 1e-6, 0.1, 1 / 3, 0.5, 0.9, 0.99, 1.0, 2.0, float('inf')]
 TOL = 1e-9
 
 BAG_TR = ['a', 'b']
